@@ -49,9 +49,9 @@ var canaries = map[string][]canary{}
 // propertyCanaries lists, per property, the rules whose canaries are run
 // after the property's own analysis.
 var propertyCanaries = map[string][]string{
-	"C01": {"STRIDE.index", "STRIDE.len", "STRIDE.start", "STRIDE.rowoffset", "STRIDE.extent", "FLAG.trans", "TWIN.generated", "ASM.units"},
-	"C02": {"FACTKIND.pair", "ARGS.order", "ARGS.lencheck", "ARGS.query", "LOOPIDX.unused", "OKFLOW.report", "STRIDE.vecinc", "WORKSIZE.min", "WORKSIZE.querylen"},
-	"C03": {"STRIDE.veclda", "FACTKIND.pair", "LOOPIDX.origin", "ARGS.order", "ARGS.lencheck", "ARGS.query", "LOOPIDX.unused", "OKFLOW.report", "STRIDE.workld", "STRIDE.worknext", "WORKSIZE.min"},
+	"C01": {"FLAG.neginc", "STRIDE.index", "STRIDE.len", "STRIDE.start", "STRIDE.rowoffset", "STRIDE.extent", "FLAG.trans", "TWIN.generated", "ASM.units"},
+	"C02": {"OKFLOW.loopstatus", "FACTKIND.pair", "ARGS.order", "ARGS.lencheck", "ARGS.query", "LOOPIDX.unused", "OKFLOW.report", "STRIDE.vecinc", "WORKSIZE.min", "WORKSIZE.querylen"},
+	"C03": {"FLAG.uplomap", "STRIDE.veclda", "FACTKIND.pair", "LOOPIDX.origin", "ARGS.order", "ARGS.lencheck", "ARGS.query", "LOOPIDX.unused", "OKFLOW.report", "STRIDE.workld", "STRIDE.worknext", "WORKSIZE.min"},
 	"C04": {"STRIDE.contig", "TWIN.bounds", "NILRECV"},
 	"C05": {"OVERLAP.guard", "MODSET.mat", "OVERLAP.symmetric", "TWIN.shadow"},
 	"C06": {"FACTKIND.pair", "OKFLOW.use", "OKFLOW.cond", "OKFLOW.report", "FACT.normorder", "FACT.state", "FACT.condunit", "NILRECV"},
@@ -74,6 +74,7 @@ func init() {
 		{"ARGS.arms", "blas/gonum/level2float64.go", "(incY < 0 && len(y) <= (1-n)*incY)", "(incY < 0 && len(y) <= (1-n)*incX)", func() *core.Result { return worksize.RunArms(def, core.Pkgs("./blas/gonum")) }},
 		{"ARGS.strict", "blas/gonum/dgemm.go", "len(c) < ldc*(m-1)+n", "len(c) <= ldc*(m-1)+n", func() *core.Result { return worksize.RunArms(def, core.Pkgs("./blas/gonum")) }},
 		{"ARGS.strict", "lapack/gonum/dgetrf.go", "len(a) < (m-1)*lda+n", "len(a) <= (m-1)*lda+n", func() *core.Result { return worksize.RunArms(def, core.Pkgs("./lapack/gonum")) }},
+		{"POOL.uaf", "mat/vector.go", "v.CopyVec(n)\n\t\tputVecDenseWorkspace(n)", "putVecDenseWorkspace(n)\n\t\tv.CopyVec(n)", func() *core.Result { return pool.Run(def) }},
 		{"GLOBAL.write", "mat/pool.go", "\tw := *poolFloat64s[poolFor(uint(l))].Get().(*[]float64)\n\tw = w[:l]", "\tw := *poolFloat64s[poolFor(uint(l))].Get().(*[]float64)\n\tw = w[:l]\n\tpoolFloat64s[0].New = nil", func() *core.Result { return globalx.Run(def, core.Pkgs("./mat"), globalx.Options{}) }},
 		{"GRAPHINV.panicorder", "graph/simple/directed.go", "g.nodes[n.ID()] = n\n\tg.nodeIDs.Use(n.ID())", "g.nodes[n.ID()] = n\n\tif n.ID() < 0 {\n\t\tpanic(\"simple: negative ID\")\n\t}\n\tg.nodeIDs.Use(n.ID())", func() *core.Result { return graphinv.RunOrder(def) }},
 		{"GRAPHINV.absent", "graph/simple/dense_directed_matrix.go", "!isSame(g.mat.At(i, int(id)), g.absent)", "g.mat.At(i, int(id)) != g.absent", func() *core.Result { return graphinv.RunOrder(def) }},
@@ -82,6 +83,9 @@ func init() {
 		{"FACTKIND.pair", "mat/qr.go", "lapack64.Ormqr(blas.Right, blas.NoTrans, qr.qr.mat, qr.tau, c, work, len(work))", "lapack64.Ormlq(blas.Right, blas.NoTrans, qr.qr.mat, qr.tau, c, work, len(work))", func() *core.Result { return factkind.Run(def, "./mat") }},
 		{"LOOPIDX.origin", "lapack/gonum/dggsvp3.go", "r := a[i*lda : i*lda+i]\n\t\tfor j := range r {\n\t\t\tr[j] = 0", "r := a[i*lda : i*lda+i]\n\t\tfor j := range r {\n\t\t\ta[j] = 0", func() *core.Result { return loopidx.Run(def, core.Pkgs("./lapack/gonum")) }},
 		{"STRIDE.veclda", "lapack/gonum/dsteqr.go", "impl.Dlascl(lapack.General, 0, 0, anorm, ssfmax, lend-l+1, 1, d[l:], 1)", "impl.Dlascl(lapack.General, 0, 0, anorm, ssfmax, lend-l+1, 1, d[l:], n)", lap},
+		{"OKFLOW.loopstatus", "lapack/gonum/dgetrf.go", "blockOk := impl.Dgetf2(m-j, jb, a[j*lda+j:], lda, ipiv[j:j+jb])\n\t\tif !blockOk {\n\t\t\tok = false\n\t\t}", "ok = impl.Dgetf2(m-j, jb, a[j*lda+j:], lda, ipiv[j:j+jb])", func() *core.Result { return okflow.Run(def, core.Pkgs("./lapack/gonum")) }},
+		{"FLAG.uplomap", "lapack/gonum/dsyev.go", "kind = lapack.UpperTri", "kind = lapack.LowerTri", func() *core.Result { return flagx.RunUploMap(def, core.Pkgs("./lapack/gonum")) }},
+		{"FLAG.neginc", "blas/gonum/level2float64.go", "Implementation{}.Dscal(lenY, beta, y, -incY)", "Implementation{}.Dscal(lenY, beta, y, incY)", func() *core.Result { return flagx.RunNegInc(def, core.Pkgs("./blas/gonum")) }},
 		{"WORKSIZE.min", "lapack/gonum/dgels.go", "wsize := max(1, mn+max(mn, nrhs)*nb)", "wsize := max(1, mn+mn*nb)", wsz},
 		{"WORKSIZE.querylen", "lapack/gonum/dormqr.go", "case lwork < max(1, nw) && lwork != -1:\n\t\tpanic(badLWork)", "case lwork < max(1, nw) && lwork != -1:\n\t\tpanic(badLWork)\n\tcase len(tau) != k:\n\t\tpanic(badLenTau)", wsz},
 		{"WORKSIZE.min", "lapack/gonum/dsyev.go", "lworkopt := max(1, (nb+2)*n)", "lworkopt := max(1, (nb+1)*n)", wsz},
